@@ -69,6 +69,7 @@ class Check:
         self.violations = []          # dicts: sig, key, case, expected, got
         self.viol_keys = {}           # key -> sig   (all, uncapped)
         self.sig_count = {}
+        self._known = None
         self.assumptions = []
         self.notes = {}
         self.caps = []                # caps that were hit
@@ -98,6 +99,13 @@ class Check:
     def violation(self, v):
         v.setdefault('key', case_key(v['case']))
         self.viol_keys.setdefault(v['key'], v.get('sig', ''))
+        if self._known is None:
+            self._known = set()
+            for e in load_findings(self.prop):
+                if e.get('status') == 'open':
+                    self._known.update(e.get('cases', []))
+        if v['key'] in self._known:
+            return          # details are only kept for cases that are not recorded findings
         n = self.sig_count.get(v.get('sig', ''), 0)
         if n < 3 and len(self.violations) < 2000:
             self.sig_count[v.get('sig', '')] = n + 1
